@@ -93,6 +93,16 @@ class dynamic_constraint_t(object):
             pass
         
 
+class dynamic_constraint_ref_t(object):
+    """Reference to the dynamic-constraint block of a specific object"""
+    
+    def __init__(self, model):
+        self.model = model
+        
+    def __call__(self):
+        return expr(ExprDynRefModel(self.model))
+
+
 def dynamic_constraint(c):
     ret = dynamic_constraint_t(c)
     
